@@ -328,6 +328,58 @@ theorem createFailureLinksFixed_no_leak (fuel : Nat) (root : Trie) (h : Heap) :
         | ok => exact freeAll_cover _ _ _ hb
         | insufficientMemory => exact freeAll_cover _ _ _ hb
 
+/-- **`_yr_ac_build_transition_table` (patched: the queue is cleared when the slot search fails)**: for every
+    failure oracle, trie, fuel and start state, whatever the outcome, the only blocks left are the ones the
+    automaton owns (freed by `yr_ac_automaton_destroy`) — no queue node survives. -/
+theorem buildTable_patched_no_leak (fuel : Nat) (q : Queue) (owned base : List Nat) (h : Heap)
+    (hi : h.live ⊆ q.map (·.1) ++ (owned ++ base)) :
+    (buildTable fail true fuel q owned h).2.live ⊆ (buildTable fail true fuel q owned h).1.2 ++ base := by
+  induction fuel generalizing q owned h with
+  | zero =>
+    simp only [buildTable]
+    exact freeAll_cover _ _ _ hi
+  | succ n ih =>
+    cases q with
+    | nil => simp only [buildTable]; simpa using hi
+    | cons bt q =>
+      obtain ⟨b, t⟩ := bt
+      simp only [buildTable]
+      have h1i : (free b h).2.live ⊆ q.map (·.1) ++ (owned ++ base) := by
+        apply free_cover
+        simpa using hi
+      cases e : alloc fail (free b h).2 with
+      | mk o h2 =>
+        cases o with
+        | none =>
+          simp only [↓reduceIte]
+          apply freeAll_cover
+          rw [(alloc_none fail e).1]; exact h1i
+        | some a =>
+          simp only
+          have h2i : QInv q (a :: owned ++ base) h2 := by
+            unfold QInv
+            rw [(alloc_some fail e).1]
+            subset_tac
+          have hp := pushAll_inv fail t.children q (a :: owned ++ base) h2 h2i
+          cases e2 : pushAll fail t.children q h2 with
+          | mk rq h3 =>
+            obtain ⟨r, q'⟩ := rq
+            rw [e2] at hp
+            cases r with
+            | ok =>
+              simp only
+              exact ih q' (a :: owned) h3 (by simpa [QInv, List.append_assoc] using hp)
+            | insufficientMemory =>
+              simp only
+              exact freeAll_cover _ _ _ (by simpa [QInv, List.append_assoc] using hp)
+
+/-- Before the patch a failed slot search abandons the queue. Witness: two states queued, the first slot
+    allocation fails: the second queue node stays allocated. -/
+theorem buildTable_as_is_leaks :
+    ∃ (fail : Nat → Bool) (q : Queue) (h : Heap), (buildTable fail false 5 q [] h).1.1 = .insufficientMemory ∧
+      ¬ (buildTable fail false 5 q [] h).2.live ⊆ (buildTable fail false 5 q [] h).1.2 :=
+  ⟨fun _ => true, [(100, .node []), (101, .node [])], ⟨0, [100, 101]⟩, by decide, by decide⟩
+
 example : (createFailureLinksFixed (fun k => k == 1) 10 (.node [.node [], .node []]) ⟨0, []⟩) = (.insufficientMemory, ⟨2, []⟩) := by decide
 
 /-! ### verification loops of the block scanner and the fast-exec position list (structure read from the source) -/
